@@ -164,3 +164,46 @@ def streams(tier, rng):
         return res
     yield {'name': 'chunkings', 'cases': cases, 'project': project, 'post': post,
            'nontrivial': lambda c, o: c if (o.count(' R') >= 3 and ' H' in o) else None}
+
+    # the zero-length call on data that a terminator would NOT complete: an unfinished block or string, a header, or a message
+    # that fills the buffer to the last usable byte.  It executes what is buffered and leaves the buffer empty, so the message
+    # that follows runs as if nothing had been pending.
+    fcases, finfo = [], {}
+    table = [(1, b'SAMP', 'PBLOCK:1'), (2, b'NUM', 'PI32:1'), (3, b'TEXT', 'PTEXT:20:1'), (4, b'Q?', 'RI32:5')]
+    pend = [b'SAMP #15ab', b'SAMP #15', b'SAMP #1', b'SAMP #', b'SAMP #210abc', b'SAMP #3', b'TEXT "abc', b"TEXT 'a;b", b'TEXT "a""', b'NUM', b'NUM 1', b'NUM 1,',
+            b'Q?;NUM', b'Q?;SAMP #12a', b'SAMP #15ab\n', b'TEXT "abcdefgh"', b'NUM 12345678', b'Q?', b'   ', b';']
+    for pd in pend:
+        for cap in sorted(set([64, len(pd) + 1, len(pd) + 2])):
+            if cap - 1 < 6:
+                continue
+            for chunks in ([pd], [pd[i:i + 1] for i in range(len(pd))], [pd[:len(pd) // 2], pd[len(pd) // 2:]]):
+                for follow in (b'NUM 7\n', b'Q?\n'):
+                    if cap - 1 < len(follow):
+                        continue
+                    c = gen.scenario(cap, 8, table, [('I', x) for x in chunks if x] + [('I', b''), ('I', follow)])
+                    fcases.append(c)
+                    finfo[c] = (pd, follow)
+
+    def foracle(case, out):
+        if out.startswith('X') or ' X' in out or case not in finfo:
+            return []
+        pd, follow = finfo[case]
+        evs = vf.events(out)
+        evs = evs[:evs.index('|')] if '|' in evs else evs
+        want = ['H2:' + vf.hx(b'NUM'), 'P1:1:7', 'R1'] if follow.startswith(b'NUM') else ['H4:' + vf.hx(b'Q?'), 'W350d0a', 'F', 'R1']
+        core = []
+        for e in evs:
+            if e[0] not in 'HPRWEF':
+                continue
+            if e[0] == 'W' and core and core[-1][0] == 'W':
+                core[-1] += e[1:]
+            else:
+                core.append(e)
+        tail = core[-len(want):]
+        pending = [e for e in evs if e[0] == 'B']
+        if tail != want:
+            return [('flush', 'pending %r, zero-length call, then %r: the following message did not run on its own (events %s)' % (pd, follow, ' '.join(core)[-300:]))]
+        if pending and pending[-1] != 'B':
+            return [('flush', 'pending %r, zero-length call, then %r: bytes are still pending at the end (%s)' % (pd, follow, pending[-1]))]
+        return []
+    yield {'name': 'flush', 'cases': fcases, 'project': project, 'oracle': foracle, 'nontrivial': lambda c, o: c}
